@@ -183,6 +183,11 @@ func (r *Reconciler) Reconcile(ctx context.Context, request reconcile.Request) (
 
 func (r *Reconciler) buildStrategyParams(logger logr.Logger, daemonset *datadoghqv1alpha1.ExtendedDaemonSet, replicaset *datadoghqv1alpha1.ExtendedDaemonSetReplicaSet) (*strategy.Parameters, error) {
 	rsStatus := retrieveReplicaSetStatus(daemonset, replicaset.Name)
+	if rsStatus == strategy.ReplicaSetStatusCanary && daemonset.Spec.Strategy.Canary == nil {
+		// The canary strategy was removed from the spec while status.canary still names this replica set (until the next
+		// ExtendedDaemonSet reconcile): without a canary strategy there is nothing to manage as a canary.
+		rsStatus = strategy.ReplicaSetStatusUnknown
+	}
 
 	// Retrieve the Node associated to the replicaset (with node selector)
 	nodeList, podList, err := r.getPodAndNodeList(logger, daemonset, replicaset)
